@@ -1,5 +1,6 @@
 import Vita.C11.Model
 import Vita.C11.Big
+import Vita.C11.Cache
 /-!
   C12 (b) — the load functions as *state transformers on the target*.
 
@@ -120,5 +121,25 @@ def Pop.loadInto (io : FloatIO F) (tab : SymTab) : List (Layer F) → Str → R 
 /-! ### summary : `*this = tmp_summary` last -/
 def Summary.loadInto (io : FloatIO F) (tab : SymTab) : Summary F → Str → R (Summary F) :=
   parseThenCommit (Summary.load io tab) (fun _ s => s)
+
+/-! ### cache::load — NOT in the property's list (documented "could be changed"); modelled to state what holds.
+    The slots are stored in the target's table while they are read: `table_[index(s.hash)] = s;` inside the
+    loop; `seal_ = t_seal;` after the last failure point. -/
+def Cache.loadSlots (io : FloatIO F) (bits sl : Nat) : Nat → List (Slot F) → Str → R (List (Slot F))
+  | 0, tab, s => ⟨tab, true, s⟩
+  | n + 1, tab, s =>
+    match Slot.load io s with
+    | none => ⟨tab, false, s⟩                       -- the slots stored so far stay in the table
+    | some (hf, r) => Cache.loadSlots io bits sl n (tab.set (slotIndex bits hf.1) ⟨hf.1, hf.2, sl⟩) r
+
+def Cache.loadIntoT (io : FloatIO F) (c : Cache F) (s : Str) : R (Cache F) :=
+  match readU U32 s with
+  | none => ⟨c, false, s⟩
+  | some (sl, s1) =>
+    match readU U64 s1 with
+    | none => ⟨c, false, s1⟩
+    | some (n, s2) =>
+      let r := Cache.loadSlots io c.bits sl n c.table s2
+      if r.ok then ⟨⟨c.bits, r.target, sl⟩, true, r.rest⟩ else ⟨{ c with table := r.target }, false, r.rest⟩
 
 end Vita.C12
